@@ -58,7 +58,7 @@ Record config := mkConfig {
   cleanup : bool }.                   (* does the recursion wrapper clean up on exceptions? *)
 
 (* the pinned code: no try/finally in DynamicRecursionCache.__call__ *)
-Definition wrapper_cleanup : bool := false.
+Definition wrapper_cleanup : bool := true.
 
 Definition FUEL : nat := 12.
 
